@@ -93,7 +93,7 @@ package statedb
 //@   ensures result == (e.used ? 1 + len(e.tail) : 0)
 
 //@ func (*lpmEntry).upsert returns (added)
-//@   property C01 C04
+//@   property C01 C02 C04
 //@   requires e != nil
 //@   requires !e.used ==> len(e.tail) == 0
 //@   ensures @frame onlyFreshExcept(e)
@@ -101,7 +101,7 @@ package statedb
 //@   ensures @count (e.used ? 1 + len(e.tail) : 0) == old(e.used ? 1 + len(e.tail) : 0) + (added ? 1 : 0)
 
 //@ func (*lpmEntry).delete returns (obj, removed)
-//@   property C01 C04
+//@   property C01 C02 C04
 //@   requires e != nil ==> (!e.used ==> len(e.tail) == 0)
 //@   ensures @frame onlyFreshExcept(e)
 //@   ensures @inv e != nil ==> (!e.used ==> len(e.tail) == 0)
